@@ -288,6 +288,15 @@ func TestDrive_C12(t *testing.T) {
 				}
 			}
 		}
+		// the same registrations followed by an empty-list one: nothing is un-registered by it
+		if mask != 0 {
+			for _, k := range []string{"Errors", "ErrorTypes"} {
+				calls := append(append([]CallD{}, base...), CallD{K: k})
+				for _, o := range outs {
+					addFail(calls, o, false)
+				}
+			}
+		}
 	}
 	gridCases := w.Total
 
